@@ -3,7 +3,7 @@ from ..recprops import RecorderCheck, consts, K, opts, replay_file
 
 CATS = {'pbout', 'recout', 'store_keys', 'store_values'}
 INVS = ['TypeOK', 'OutputsExact', 'OneEntryPerCall', 'SameOutputs', 'IdleClean']
-EDITS = ['sent', 'drop', 'add', 'swap', 'result', 'raise']
+EDITS = ['sent', 'drop', 'add', 'swap', 'result', 'raise', 'ctl']
 
 
 def nontrivial(beh):
